@@ -1,3 +1,5 @@
+import re
+
 from typing import Optional
 
 from pastel import Pastel
@@ -14,6 +16,8 @@ class AnsiFormatter(Formatter):
     """
     A formatter that replaces style tags by ANSI format codes.
     """
+
+    _ESCAPED_TAG_REGEX = re.compile(r"\\((?:\x1b\[[0-9;]*m)+)<")
 
     def __init__(self, style_set=None, forced=False):  # type: (StyleSet) -> None
         self._formatter = Pastel(True)
@@ -45,6 +49,10 @@ class AnsiFormatter(Formatter):
                 # Pastel returns text without any tag as is,
                 # so the given style has to be applied here.
                 formatted = pastel_style.apply(formatted)
+
+        # Pastel only removes the backslash of an escaped "<" when both are
+        # adjacent, which they are not inside a styled region.
+        formatted = self._ESCAPED_TAG_REGEX.sub(r"\1<", formatted)
 
         return formatted
 
